@@ -370,3 +370,28 @@ def agg_term(e: ast.AST, side: Side) -> Any:
         side.groups.append(roots[0])
         return ("sum_g", op, tuple(sorted(parts)))
     return ("other", u(e))
+
+
+# --------------------------------------------------------------------------------------------- controls
+def seg(source: str, node: ast.AST) -> str:
+    t = ast.get_source_segment(source, node)
+    if t is None:
+        raise AnalysisError("source segment not available")
+    return t
+
+
+def splice(source: str, edits: list[tuple[ast.AST, str]]) -> str:
+    """`source` with the text of each node replaced (nodes must come from the parse of `source`)."""
+    lines = source.splitlines(keepends=True)
+    starts = [0]
+    for ln in lines:
+        starts.append(starts[-1] + len(ln))
+
+    def off(lineno: int, col: int) -> int:
+        return starts[lineno - 1] + len(lines[lineno - 1].encode("utf-8")[:col].decode("utf-8"))
+
+    spans = sorted(((off(n.lineno, n.col_offset), off(n.end_lineno, n.end_col_offset), new)  # type: ignore[attr-defined]
+                    for n, new in edits), reverse=True)
+    for a, b, new in spans:
+        source = source[:a] + new + source[b:]
+    return source
